@@ -280,10 +280,13 @@ def translations():
     path = os.path.join(outdir, "Gen_tables_params.v")
     try:
         text = build_text()
-    except Exception:
-        # fail closed: a stale table must not survive a failed regeneration
-        if os.path.exists(path):
-            os.remove(path)
+    except Exception as e:
+        # fail closed: a stale table must not survive a failed regeneration -- replace it by a
+        # file that cannot compile (so every dependent obligation is reported as broken)
+        msg = f"{type(e).__name__}: {e}".replace("*)", "* )").replace("(*", "( *")
+        with open(path, "w") as f:
+            f.write("(* GENERATED by translator/specs_params.py: table generation FAILED\n   " + msg + " *)\n"
+                    "Definition table_generation_failed : True := 0.\n")
         raise
     if not (os.path.exists(path) and open(path).read() == text):
         with open(path, "w") as f:
